@@ -767,15 +767,25 @@ class Prop(fw.PropBase):
         'pysam.index a usable index (the correspondence check reads the real files back: EOF block, record identity '
         'multiset, order, index fetch counts); a failing external call is modelled as raising either before any effect or '
         'after a partial effect (truncated output / truncated status file)',
-        'partial: process death (kill -9, power loss, partial page writes) is not modelled - only Python exceptions '
-        '(Exception and non-Exception such as KeyboardInterrupt) at step boundaries; a BaseException inside a pool worker '
-        'makes multiprocessing.Pool hang (no status change) and is outside the model',
+        'exception classes: a failing step raises one of RuntimeError / ValueError / OSError / TimeoutError / MemoryError / '
+        'another Exception / a non-Exception (KeyboardInterrupt, SystemExit); each except clause of the source is translated '
+        'with the classes it names (fail closed outside this hierarchy) and the theorems quantify over the class; the '
+        'correspondence check injects RuntimeError, ValueError, OSError(ENOSPC), OSError(EIO), IOError, MemoryError, '
+        'KeyboardInterrupt and a custom Exception at the fault points',
+        'partial: process death (kill -9, power loss, partial page writes) is not modelled - only Python exceptions at step '
+        'boundaries (SIGKILL is sampled by K and compared with "no handler runs"); a non-Exception inside a pool worker makes '
+        'multiprocessing.Pool hang (no status change) and is outside the model',
+        'the input side (verify_and_fix_bam rebuilding a missing / outdated index of the input BAM) is one step without '
+        'effect in the model; K covers it with run histories: input without index, input regenerated while the index of '
+        'an earlier (shorter / longer, other contigs) version was left behind; "complete" is then judged against a '
+        'fault-free run on the CURRENT input with a fresh index',
         'not translated: the `if args.cluster:` branch of run_multiome_tagging (job submission; its merge job writes '
-        '"All done" itself), the body of run_tagging_task (one task = one unit), the options -head (truncates on purpose) '
-        'and -max_time_per_segment (TimeoutError in a worker is swallowed by design and the region blacklisted)',
+        '"All done" itself), the body of run_tagging_task (one task = one unit), the option -head (truncates on purpose)',
     ]
     ASSUMPTIONS = [
-        '-head and -max_time_per_segment not given (both drop records on purpose); not --cluster',
+        '-head not given (drops records on purpose); not --cluster',
+        'C20_worker_complete: no TimeoutError inside a worker - run_tagging_tasks swallows it on purpose '
+        '(-max_time_per_segment: the region is skipped and recorded as blacklisted in the header); every other class is covered',
         'C20_fail_not_ok: the run does not start from a stale success marker and no blacklist temp files are cleaned '
         'up after the pipeline (the clean-up loop runs after the success marker was written)',
     ]
@@ -1115,6 +1125,7 @@ class Prop(fw.PropBase):
         refs, res = self.run_impl_cases(cases, small_n)
         self.impl_cases, self.impl_res = cases, res
         fired = [bool(r.get('fired')) for r in res]
+        self.cov['harness'] = 'every tagger run in its own forked child and process group, 60 s hard timeout per run'
         keyset = set(json.dumps(c, sort_keys=True) for c, fr in zip(cases, fired) if fr and c['faults'])
         hist = {}
         for c in cases:
@@ -1122,7 +1133,7 @@ class Prop(fw.PropBase):
                 hist[f['point']] = hist.get(f['point'], 0) + 1
         outcome_hist = {}
         for r in res:
-            k = describe(r['world']) + ' raised=%s' % r.get('raised') if 'world' in r else 'harness_error'
+            k = (describe(r['world']) + ' raised=%s' % r.get('raised')) if 'world' in r else 'harness_error'
             outcome_hist[k] = outcome_hist.get(k, 0) + 1
         self.cov.update({
             'evaluations': len(cases) + len(self.refs),
@@ -1145,14 +1156,24 @@ class Prop(fw.PropBase):
         if bad:
             raise fw.Broken('correspondence', 'fault-free reference run does not end with status OK and a complete '
                             'sorted indexed output: %r' % bad)
-        herr = [(c, r) for c, r in zip(cases, res) if 'harness_error' in r]
+        herr = [(c, r) for c, r in zip(cases, res) if 'harness_error' in r or 'skipped' in r or r.get('raised') == 98]
         if herr:
-            raise fw.Broken('correspondence', 'harness error: %r' % (herr[0],))
+            raise fw.Broken('correspondence', 'harness error (%d cases): %r' % (len(herr), herr[0]))
+        # runs that did not end within the per-case timeout: no model outcome to compare with (the model has
+        # no non-returning run); recorded, and the status file is still checked against the invariant
+        hung = [i for i, r in enumerate(res) if r['raised'] == 99]
+        self.cov['hung_cases'] = [{'input': cases[i], 'world': describe(res[i]['world'])} for i in hung[:10]]
+        self.cov['hung_count'] = len(hung)
+        if len(hung) > max(2, len(cases) // 50):
+            raise fw.Broken('correspondence', '%d of %d runs did not end within the per-case timeout; first: %r'
+                            % (len(hung), len(cases), cases[hung[0]]))
         if not self.model_ok or self.gen is None:
             return
         pred = self.predict(cases)
         dis = []
         for c, r, m in zip(cases, res, pred):
+            if r['raised'] == 99:
+                continue
             if r['world'] != m['world'] or r['raised'] != m['raised']:
                 dis.append({'input': c, 'impl': {'world': describe(r['world']), 'raised': r['raised'], 'error': r.get('error')},
                             'model': {'world': describe(m['world']), 'raised': m['raised'], 'fault_steps': m['fault_steps']}})
